@@ -78,7 +78,10 @@ def classify(ctx, pid, cases, results, what):
     bad = []
     for c, r in zip(cases, results):
         if c.get("note", "").startswith("panic"):
-            bad.append((c, r, "panic: " + c["note"][:400]))
+            why = c["note"][:400]
+            if r is not None and r != [0]:
+                why += " || and before that: " + explain(r)
+            bad.append((c, r, why))
         elif r != [0]:
             bad.append((c, r, explain(r)))
     if not bad:
